@@ -42,6 +42,74 @@ def _event_calls(st, names):
     return out
 
 
+def desugar_with(repo, f):
+    """a copy of the function in which ``with C(args): body`` - C a context-manager class of the package whose __init__ stores its
+    parameters, whose __exit__ never swallows an exception - is written out as  <__enter__ body>; try: body; finally: <__exit__ body>
+    with ``self.<attr>`` replaced by the constructor arguments.  Anything else is left alone."""
+    import copy
+    node = copy.deepcopy(f.node)
+
+    class Sub(ast.NodeTransformer):
+        def __init__(self, env):
+            self.env = env
+
+        def visit_Attribute(self, n):
+            if isinstance(n.value, ast.Name) and n.value.id == 'self' and n.attr in self.env and isinstance(n.ctx, ast.Load):
+                return copy.deepcopy(self.env[n.attr])
+            return self.generic_visit(n)
+
+    def expand(w):
+        if len(w.items) != 1 or not isinstance(w.items[0].context_expr, ast.Call) or not isinstance(w.items[0].context_expr.func, ast.Name):
+            return None
+        call = w.items[0].context_expr
+        r = repo.resolve(f.module, call.func.id)
+        if not r or r[0] != 'class':
+            return None
+        ci = r[1]
+        init, ent, ext = ci.methods.get('__init__'), ci.methods.get('__enter__'), ci.methods.get('__exit__')
+        if not (init and ent and ext):
+            return None
+        params = [p for p in init.params if p != 'self']
+        bound = dict(zip(params, call.args))
+        bound.update({k.arg: k.value for k in call.keywords if k.arg})
+        env = {}
+        for st in init.node.body:
+            if isinstance(st, ast.Assign) and len(st.targets) == 1 and isinstance(st.targets[0], ast.Attribute) \
+                    and isinstance(st.targets[0].value, ast.Name) and st.targets[0].value.id == 'self' \
+                    and isinstance(st.value, ast.Name) and st.value.id in bound:
+                env[st.targets[0].attr] = bound[st.value.id]
+            elif not (isinstance(st, ast.Expr) and isinstance(st.value, ast.Constant)):
+                return None
+        # __exit__ must not swallow: every return is False / None / absent
+        for x in ast.walk(ext.node):
+            if isinstance(x, ast.Return) and x.value is not None and not (isinstance(x.value, ast.Constant) and not x.value.value):
+                return None
+
+        def body_of(meth):
+            out = []
+            for st in meth.node.body:
+                if isinstance(st, ast.Return):
+                    break
+                if isinstance(st, ast.Expr) and isinstance(st.value, ast.Constant):
+                    continue
+                out.append(ast.fix_missing_locations(ast.copy_location(Sub(env).visit(copy.deepcopy(st)), w)))
+            return out
+        pre, post = body_of(ent), body_of(ext)
+        if not post:
+            return None
+        tr = ast.copy_location(ast.Try(body=w.body, handlers=[], orelse=[], finalbody=post), w)
+        return pre + [ast.fix_missing_locations(tr)]
+
+    class With(ast.NodeTransformer):
+        def visit_With(self, w):
+            self.generic_visit(w)
+            new = expand(w)
+            return new if new is not None else w
+    node = With().visit(node)
+    ast.fix_missing_locations(node)
+    return node
+
+
 def visit_pairing(repo, rep, rule):
     """R-PAIR over the wrapper: 0 outstanding visits at entry, +1 at acquire, -1 at release,
     0 at every return and at every exceptional exit whose exception an enclosing
@@ -53,6 +121,7 @@ def visit_pairing(repo, rep, rule):
     acq, rel, tst = roles['acquire'].name, roles['release'].name if roles['release'] else None, \
         roles['test'].name if roles['test'] else None
     where = w.where
+    wnode = desugar_with(repo, w)
     n = 0
     if rel is None:
         rep.fail(rule, 'context:no-release-method', roles['cls'].where,
@@ -98,9 +167,9 @@ def visit_pairing(repo, rep, rule):
                 runner_lines.append((c, state))
         return transfer(st, state)
     fl = Flow(transfer_outer, raises)
-    out = fl.run(w.node, 0)
+    out = fl.run(wnode, 0)
     rep.count(fl.visited_stmts)
-    g0 = Guards(w.node)
+    g0 = Guards(wnode)
     for st, state in runner_lines:
         if state >= 1:
             continue
@@ -110,7 +179,7 @@ def visit_pairing(repo, rep, rule):
                   'printer invoked outside the visit window only for acyclic leaf types (%s)' % why,
                   'the printer is invoked at line %d without the value having been marked as visited (%s): a cycle through such a '
                   'value is not cut at the back-reference' % (st.lineno, why), nontrivial=True)
-    acquires = [c for c in ast.walk(w.node) if isinstance(c, ast.Call) and isinstance(c.func, ast.Attribute)
+    acquires = [c for c in ast.walk(wnode) if isinstance(c, ast.Call) and isinstance(c.func, ast.Attribute)
                 and c.func.attr == acq]
     n += 1
     rep.check(len(acquires) >= 1, rule, 'wrapper:acquires-visit', where, 'wrapper marks the value as being visited',
@@ -133,7 +202,7 @@ def visit_pairing(repo, rep, rule):
               'object are reported as recursion' % ', '.join('line %d (%s)' % (ln, 'any Exception' if e == '*' else e)
                                                             for ln, e in bad_raise[:6]), nontrivial=True)
     # marker return happens before the acquire and under the positive visited test
-    g = Guards(w.node)
+    g = Guards(wnode)
     for a in acquires:
         n += 1
         ok = tst is not None and any((not f.pol) and call_name_in(f.test, tst) for f in g.of(a))
@@ -141,7 +210,7 @@ def visit_pairing(repo, rep, rule):
                   'visited test (negative) dominates the acquire',
                   'the visit is started without first testing that the value is not already being visited '
                   '(every value would be reported as, or never be recognised as, a back-reference)', nontrivial=True)
-    markers = [r for r in ast.walk(w.node) if isinstance(r, ast.Return) and r.value is not None
+    markers = [r for r in ast.walk(wnode) if isinstance(r, ast.Return) and r.value is not None
                and isinstance(r.value, ast.Call) and 'recursion' in call_name(r.value).lower()]
     n += 1
     rep.check(len(markers) >= 1, rule, 'wrapper:marker-return', where, 'recursion marker returned for a back-reference',
@@ -235,10 +304,29 @@ def invocation_sites(repo, depth=3):
                 for k in c.keywords:
                     if isinstance(k.value, ast.Name) and k.value.id == pname and k.arg in callee.params:
                         work.append((callee, k.arg, d + 1))
-    # predicate registry entries: ``for predicate, fn in REG: ... fn(value, ctx)``
+    # predicate registry entries: ``for predicate, fn in REG: ... fn(value, ctx)`` - REG itself, a copy of it, or an accessor
+    # function that returns it
+    store_ = __import__('engine.roles', fromlist=['x']).name(repo, 'predicate_store')
+
+    def is_store(e, depth=0):
+        if isinstance(e, ast.Name):
+            return e.id == store_
+        if isinstance(e, ast.Attribute):
+            return is_store(e.value, depth)
+        if isinstance(e, ast.Call):
+            cn = call_name(e)
+            if cn in ('list', 'tuple', 'iter', 'reversed') and e.args:
+                return is_store(e.args[0], depth)
+            if isinstance(e.func, ast.Attribute) and e.func.attr in ('copy', 'items', 'values'):
+                return is_store(e.func.value, depth)
+            r_ = repo.resolve(m, e.func.id) if isinstance(e.func, ast.Name) else None
+            if r_ and r_[0] == 'func' and depth < 3:
+                rets = [x for x in ast.walk(r_[1].node) if isinstance(x, ast.Return) and x.value is not None]
+                return bool(rets) and all(is_store(x.value, depth + 1) for x in rets)
+        return False
     for f in m.funcs.values():
         for lp in ast.walk(f.node):
-            if isinstance(lp, ast.For) and src(lp.iter).split('.')[0] == __import__('engine.roles', fromlist=['x']).name(repo, 'predicate_store') and isinstance(lp.target, ast.Tuple):
+            if isinstance(lp, ast.For) and is_store(lp.iter) and isinstance(lp.target, ast.Tuple):
                 names = [e.id for e in lp.target.elts if isinstance(e, ast.Name)]
                 for c in ast.walk(lp):
                     if isinstance(c, ast.Call) and isinstance(c.func, ast.Name) and c.func.id in names:
